@@ -22,7 +22,9 @@ def generate(tier, seed):
             if k == 2 and pre not in ([], ["EN:1"]):
                 continue
             for h in itertools.product(al_ex, repeat=k):
-                steps = list(pre) + obs
+                steps = list(obs)
+                for t in pre:
+                    steps += [t] + obs
                 for o in h:
                     steps += [o] + obs
                 cases.append(case("eng", sp, adapter_M(lines), "w", steps))
